@@ -75,7 +75,34 @@ def cases(draw, dag=False):
             q[1] = gen._jsid(tup(q[1]))
             emit_eval(q)
     for _ in range(draw(st.integers(4, 14))):
-        k = draw(st.integers(0, 12))
+        k = draw(st.integers(0, 13))
+        if k == 13:
+            # a held element nothing depends on, whose formula reads a reference through an attribute path, is
+            # overwritten by the user; then that reference changes: the assigned value must stay
+            from ..expr import walk
+            leafs = []
+            for e in sorted(gsim.held, key=repr):
+                if e[1] is None or e in gsim.inputs or gsim.dependents(e) or not all(isinstance(x, str) for x in e[0]):
+                    continue
+                try:
+                    cd = G.find_cells(G.space(e[0]), e[1])[1]
+                except Exception:
+                    continue
+                exprs = list(cd.terms) if cd.terms else [cd.expr]
+                if cd.cached and any(n[0] == "attr" and n[2] in ("r0", "g0") for x in exprs for n in walk(x)):
+                    leafs.append(e)
+            if leafs and dag:
+                e = draw(st.sampled_from(leafs))
+                op = ["set_value", gen._jsid(e[0]), e[1], list(e[2]), draw(st.integers(200, 250))]
+                hist.append(op)
+                apply_ref(G, op)
+                gsim.assign(e, op[4])
+                for rop in (["set_ref", ["S0"], "r0", ["v", draw(st.integers(20, 29))], None],
+                            ["set_ref", [], "g0", ["v", draw(st.integers(20, 29))], None]):
+                    hist.append(rop)
+                    apply_ref(G, rop)
+                gsim.discard_many([x for x in gsim.held if x not in gsim.inputs])
+            continue
         if k == 12:
             # copy a cells that has assigned values into a space that lacks the name (same name: the formula's
             # tick call carries it); the copy starts with the same assigned values
@@ -134,10 +161,19 @@ def cases(draw, dag=False):
             apply_ref(G, hist[-1])
             gsim.discard_many([e for e in gsim.held if e[0] == tup(sid) and e[1] == name])
         elif k == 10:
-            if draw(st.booleans()):
+            # a new reference nobody reads, or a new value for one the formulas read (by name / attribute path)
+            which = draw(st.integers(0, 3))
+            if which == 0:
                 hist.append(["set_ref", sid[:1], "u0", ["v", draw(st.integers(0, 9))], None])
+            elif which == 1:
+                hist.append(["set_ref", [], "u1", ["v", draw(st.integers(0, 9))], None])
+            elif which == 2 and dag:
+                hist.append(["set_ref", ["S0"], "r0", ["v", draw(st.integers(10, 19))], None])
+            elif dag:
+                hist.append(["set_ref", [], "g0", ["v", draw(st.integers(10, 19))], None])
             else:
                 hist.append(["set_ref", [], "u1", ["v", draw(st.integers(0, 9))], None])
+            apply_ref(G, hist[-1])
             gsim.discard_many([e for e in gsim.held if e not in gsim.inputs])
         else:
             if draw(st.integers(0, 3)) == 0:
@@ -189,6 +225,7 @@ def run_case(case):
     rm = R.RModel()
     sim = MemoSim()
     recalc = False
+    in_history = False      # build operations come first, the history starts at the recalc marker
     nt = False
     ops = case["ops"]
     for i, op in enumerate(ops):
@@ -196,8 +233,10 @@ def run_case(case):
         if k == "recalc":
             recalc = bool(op[1])
             real.apply(op)
+            in_history = True
             continue
-        if k in ("new_space", "new_cells", "set_formula", "add_bases") or (k == "set_ref" and op[2][0] in "rgo"):
+        if k in ("new_space", "new_cells", "set_formula", "add_bases") or (
+                k == "set_ref" and op[2][0] in "rgo" and not in_history):
             res = real.apply(op)
             if res[0] == "ok":
                 apply_ref(rm, op)
